@@ -2,7 +2,7 @@
 the reference array each one denotes (computed by mc.refmodel, never by pyttb).
 
 descriptor forms (all values explicit or derived deterministically):
-  {"kind":"tensor",   "shape":[..], "vals":[F-order] | "pat":[0/1..], "vseed":int}
+  {"kind":"tensor",   "shape":[..], "vals":[F-order] | "pat":[0/1..], "vseed":int, "grown":bool (built by growth)}
   {"kind":"sptensor", ... same ..., "order":[perm of the stored nonzeros] | null}
   {"kind":"ktensor",  "shape":[..], "rank":R, "weights":[..], "salt":int, "zero_col":[mode,col]|null}
   {"kind":"ttensor",  "shape":[..], "core_shape":[..], "core":"dense"|"sparse", "core_pat":[..]|null, "salt":int}
@@ -92,6 +92,13 @@ def build(d):
     shape = tuple(d["shape"]) if "shape" in d else None
     if k == "tensor":
         a = rm.arr(shape, _vals(d))
+        if d.get("grown"):
+            # a non-initial state: the tensor reached its shape by growth (the library then holds a C-ordered
+            # buffer) and was filled in place afterwards
+            T = ttb.tensor(np.zeros(tuple(1 for _ in shape)))
+            T[tuple(s - 1 for s in shape)] = 0.0
+            T[tuple(slice(None) for _ in shape)] = np.asfortranarray(a)
+            return T
         if d.get("c_order"):
             return ttb.tensor(np.ascontiguousarray(a), copy=True)
         return ttb.tensor(np.asfortranarray(a))
